@@ -60,6 +60,21 @@ func (b *schemaBuilder) schemaForType(typ reflect.Type) (Schema, error) {
 	}
 	verifPoint(vpSchemaRegistryAfterLookup)
 
+	// A named slice, array, map or pointer type can contain itself (type L []L)
+	// without any struct on the way: guard those as schemaForStruct guards structs.
+	switch typ.Kind() {
+	case reflect.Array, reflect.Slice, reflect.Map, reflect.Pointer:
+		if typ.Name() != "" {
+			for _, t := range b.inProgress {
+				if t == typ {
+					return Schema{}, fmt.Errorf("recursive type %s not supported", typ)
+				}
+			}
+			b.inProgress = append(b.inProgress, typ)
+			defer func() { b.inProgress = b.inProgress[:len(b.inProgress)-1] }()
+		}
+	}
+
 	// BigQuery makes every basic type nullable. We'll send null for the zero
 	// value if there's an "omitempty" tag.
 	switch typ.Kind() {
